@@ -178,6 +178,17 @@ cfg["C11"] = {
     "assumptions": ledger_assume,
 }
 
+COB = 'resource/cobalt'
+cob_stubs = common_stubs + "; goroutines in cobalt.call run to completion at the go statement; sync.WaitGroup/Mutex run from real SSA over sequential sync/atomic primitives; sync.Map is an insertion-ordered table; plugins are in-harness models returning fixed answers"
+cfg["C09"] = {
+    "title": "Multi-plugin capacity aggregation is independent of plugin order", "design_ref": "DESIGN.md §4 C09",
+    "runs": [{"dir": COB, "inline_go": True, "quick": P("VerifMerge", "p=2,n=1", "p=2,n=2", "p=1,n=2"), "thorough": P("VerifMerge", "p=2,n=1", "p=2,n=2", "p=1,n=2", "p=3,n=1", "p=3,n=2"), "samples": 3}],
+    "bounds": "1-3 plugins, 1-2 nodes, each plugin offers an arbitrary subset with capacity in [1,2^40] or MaxInt, usage/rate grid floats m*2^-6 (0<=m<=2^12), weight from {1,2,100} per plugin; the merge order is a symbolic permutation of the plugins. The final division by the total weight is kept as an exact fraction and compared by cross-multiplication (IEEE rounding of that last quotient is outside the claim).",
+    "outside": "values off the grid; rounding of the final division; more than 3 plugins; Go's map iteration order is represented by the plugin permutation; call()'s real goroutine scheduling",
+    "assumptions": [cob_stubs],
+}
+cfg["C07"]["runs"].append({"dir": COB, "inline_go": True, "quick": P("VerifMerge", "p=2,n=2", "p=1,n=2"), "thorough": P("VerifMerge", "p=2,n=2", "p=1,n=2", "p=3,n=2"), "samples": 2})
+
 meta = {
     "C01": "Every feasible path of strategy.Deploy and the five real strategy functions (real container/heap and sort SSA) is executed with capacities, counts, need, limit, usage and rate symbolic; on each path z3 proves the plan assertions (only candidates, 0<=d<=capacity, exact totals, EACH/FILL selection sizes, AUTO node limit) for all values inside the bounds, or returns a model that is replayed natively. Bounded by node count and, for AUTO/GLOBAL, by need.",
     "C02": "Same exploration; on every path z3 proves err==nil <=> a harness-side reference feasibility predicate (saturating sums, no wrap) and that a refusal returns no plan.",
@@ -189,6 +200,7 @@ meta = {
     "C08": "One inductive step per operation from an arbitrary pre-state satisfying usage = R + w: after alloc/realloc every component equals the sum over live workloads, and operation+rollback restores the pre-state exactly. Covers histories of any length if the invariant is right.",
     "C15": "FixNodeResource and GetNodeResourceInfo are executed on a node whose recorded usage is arbitrary in every component; z3 proves per path that the stored usage afterwards equals the component-wise sum of the workloads and that a second check reports no differences.",
     "C32": "CalculateRemap is executed on arbitrary node states with every bound/unbound mix; z3 proves the answer covers exactly the unbound workloads with exactly the cores having >= one share base free (all cores if none).",
+    "C09": "cobalt.Manager.GetNodesDeployCapacity and mergeCapacity are executed with symbolic plugin answers and a symbolic merge order; z3 proves per path that the offered set is the intersection, capacity the minimum, usage/rate the weighted average (as exact fractions) and that two merge orders give identical results.",
     "C10": "The real ReallocResource / RemoveWorkload / DissociateWorkload (with the real utils.Txn, lock wrappers and node selection) are executed against an abstract ledger world with a symbolic single fault; z3 proves usage = sum of recorded workloads after every outcome, for all symbolic amounts.",
     "C11": "Same executions; when (a part of) the operation reports failure, z3 proves that records, amounts, containers and usage equal the pre-state for every fault position.",
     "C17": "utils.Txn and utils.PCR are executed for every outcome vector and caller-cancellation point (symbolic Booleans / choices, complete finite space); z3 decides each branch; assertions: then iff cond ok, rollback exactly once iff a step failed with the right flag, first failure returned, rollback context not cancelled by the caller.",
